@@ -147,7 +147,14 @@ class IfWriteHandler(AbstractWriteHandler):
         # TODO: More error checking for parameters would probably be a good idea
         if op.op_code.name == "Branch":
             return f"{op.params[0]} {SsbOperator.EQ.notation} {op.params[1]}"
+        if op.op_code.name in ("BranchDebug", "BranchEdit", "BranchVariation") and op.params[0] not in (0, 1):
+            raise ValueError(f"{op.op_code.name} with a parameter other than 0 or 1 can't be written as a condition.")
+        if op.op_code.name == "BranchPerformance" and op.params[1] not in (0, 1):
+            raise ValueError("BranchPerformance with a value other than 0 or 1 can't be written as a condition.")
         if op.op_code.name == "BranchBit":
+            if str(op.params[0]) == self.decompiler.performance_progress_list_var_name:
+                # (this spelling belongs to BranchPerformance)
+                raise ValueError("BranchBit on the performance progress list can't be written as a condition.")
             return f"{op.params[0]}[{op.params[1]}]"
         if op.op_code.name == "BranchDebug":
             if op.params[0] > 0:  # type: ignore
